@@ -176,6 +176,17 @@ CLAIMED.update({
     ),
 })
 
+CLAIMED.update({
+    "C23": dict(
+        level="other",
+        note="Trusted: CPython ast; the frozen who-writes table for cancel_req. Not decided: arrival-time races between the "
+        "provider thread inserting and the association thread clearing (a cancel that overtakes the start of its own operation "
+        "is emptied by the pre-clear: schedule-dependent, outside a static argument).",
+        technique="def-use of the dictionary key + guard extraction + dominance / must-pass over a hand-built CFG + who-writes query (ast)",
+        ref="4/C23",
+    ),
+})
+
 PENDING = "designed in DESIGN.md section 4, checker not built yet - not claimed through a stub"
 
 NOT_APPLICABLE = {
